@@ -133,7 +133,10 @@ def _build_circuit(case, cspec):
         n = np.int64(n)
     elif n is not None and cspec.get("nt") == "float":
         n = float(n)
-    return oqc.Circuit(ops, n_qubits=n)
+    c = oqc.Circuit(ops, n_qubits=n)
+    from ..circ import scribble
+    scribble(ops)  # the caller's own working list lives on and changes; the circuit is a value
+    return c
 
 
 def _evalc(e, memo):
